@@ -27,7 +27,7 @@ def demo_cmd(pid, x):
     return first
 
 def run_demo(pid, x, workdir):
-    cmd = demo_cmd(pid, x).replace("/tmp/wt/%sx" % pid, WT).replace("/tmp/wt/%s" % pid, WT)
+    cmd = demo_cmd(pid, x).replace("/tmp/wt/%sy" % pid, WT).replace("/tmp/wt/%sx" % pid, WT).replace("/tmp/wt/%s" % pid, WT)
     rc, out = sh("cd %s && %s" % (workdir, cmd), timeout=600)
     return rc, out[-600:]
 
